@@ -325,6 +325,32 @@ void h_b_sort()
   NV_REACH("b_sort.return");
 }
 
+// sort of a hand-built list of exactly NV_SORTN elements (no append loops: keeps the model small)
+#ifndef NV_SORTN
+#define NV_SORTN 2
+#endif
+void h_b_sortn()
+{
+  NV_INPUT_ARR(long, vals, NV_SORTN);
+  L* l = raw_list();
+  Item* it[NV_SORTN];
+  for(int i = 0; i < NV_SORTN; i++) { it[i] = raw_item(); it[i]->value.v = vals[i]; }
+  for(int i = 0; i < NV_SORTN; i++) { it[i]->prev = i ? it[i - 1] : (Item*)0; it[i]->next = i + 1 < NV_SORTN ? it[i + 1] : &l->endItem; }
+  l->_begin.item = it[0]; l->endItem.prev = it[NV_SORTN - 1]; l->_size = NV_SORTN; l->freeItem = 0; l->blocks = 0;
+  l->sort();
+  bool asc = true, perm = true;
+  const Item* p = l->_begin.item;
+  for(int i = 0; i + 1 < NV_SORTN; i++) { asc = asc && !(p->next->value < p->value); p = p->next; }
+  for(int i = 0; i < NV_SORTN; i++)
+  {
+    int cin = 0, cout = 0; const Item* q = l->_begin.item;
+    for(int j = 0; j < NV_SORTN; j++) { cin += vals[j] == vals[i]; cout += q->value.v == vals[i]; q = q->next; }
+    perm = perm && cin == cout;
+  }
+  NV_CHECK(asc && perm && l->_size == NV_SORTN, "List::sort: ascending permutation (hand-built list)");
+  NV_REACH("b_sortn.return");
+}
+
 void h_b_append_list()
 {
   NV_LIST_INPUTS();
